@@ -252,3 +252,7 @@ Definition parse_key2 (key : String.string) : String.string * String.string * St
   let parts := split_on_max colon 2 key in
   (nth 0 parts String.EmptyString, nth 1 parts String.EmptyString, nth 2 parts String.EmptyString).
 
+
+(* ---- optional key sort_t of to_dict / save_npz: present only when the flag differs from the class default *)
+Definition opt_flag_save (default v : bool) : option bool := if Bool.eqb v default then None else Some v.
+Definition opt_flag_load (default : bool) (o : option bool) : bool := match o with Some v => v | None => default end.
